@@ -104,7 +104,10 @@ def run_case(case, ctx):
     seq = kind in ("buffered", "mmap")   # sequence classes also offer iteration and slices
 
     def res_i(v):
-        """programme entry -> access: an int is an index; a negative code selects an iteration / slice (sequence classes)"""
+        """programme entry -> access: an int is an index; a negative code selects an iteration / slice (sequence classes);
+        the string "open" is a call of open() on the (already open) object"""
+        if v == "open":
+            return ["open"]
         if isinstance(v, int) and v < 0 and seq:
             m = -v
             if m % 2:
@@ -117,6 +120,8 @@ def run_case(case, ctx):
         return a if isinstance(a, list) else key(a)
 
     def exp_of(a):
+        if isinstance(a, list) and a[0] == "open":
+            return "opened"
         if isinstance(a, list):
             return lines[:a[1]] if a[0] == "iter" else lines[a[1]:a[2]]
         return exp(a)
@@ -224,7 +229,9 @@ def strategies(tier):
     seq_prog = st.tuples(st.sampled_from([1, 1, 0, 2, 40, 500]), st.integers(2, 8)).map(lambda t: list(range(t[0], t[0] + t[1])))
     # long runs of consecutive keys: longer than what one read-ahead buffer holds, so that buffer refills happen in mid-run
     long_prog = st.tuples(st.sampled_from([1, 1, 0, 25]), st.sampled_from([130, 220, 320])).map(lambda t: [["range", t[0], t[1]]])
-    prog = st.one_of(rnd_prog, rnd_prog, rnd_prog, seq_prog, seq_prog, long_prog)
+    # a process may call open() (an empty operation on an open object) before or between its reads, e.g. in a worker initialiser
+    open_first = st.one_of(rnd_prog, seq_prog).map(lambda pr: ["open"] + pr)
+    prog = st.one_of(rnd_prog, rnd_prog, rnd_prog, seq_prog, seq_prog, long_prog, open_first)
     case = st.fixed_dictionaries({
         "cls": st.sampled_from(["buffered", "buffered", "mmap", "map-dict", "map-index"]),
         "size": st.sampled_from(["small", "40k", "200k", "200k"]),
